@@ -152,22 +152,24 @@ Section Dec.
   Lemma freq_ok_cnts keep ffs : forall fs,
     forallb (field_ok) ffs = true -> mconf c U poly ffs fs = true ->
     (forall f x, keep f x = false -> x = DNone /\ df_min f <= 0) ->
-    (forall f, member_conf c U poly f DNone = true -> dmulti f = true -> keep f DNone = false) ->
+    (forall f x, In (f, x) (combine ffs fs) -> x = DNone -> dmulti f = true -> keep f x = false) ->
     freq_ok ffs (cnts keep ffs fs) = true.
   Proof.
     intros fs Hfo Hm K1 K2. unfold freq_ok, freq_low, freq_high.
-    revert fs Hm. induction ffs as [|f r IH]; intros [|x s] Hm; cbn [mconf] in Hm; try discriminate;
+    revert fs Hm K2. induction ffs as [|f r IH]; intros [|x s] Hm K2; cbn [mconf] in Hm; try discriminate;
       [reflexivity|].
     cbn [forallb] in Hfo. apply andb_true_iff in Hfo as [Hf Hfo].
     apply andb_true_iff in Hm as [Hmx Hm].
-    cbn [cnts combine forallb fst snd]. rewrite (IH Hfo s Hm), andb_true_r.
+    cbn [cnts combine forallb fst snd].
+    rewrite (IH Hfo s Hm (fun g y Hin => K2 g y (or_intror Hin))), andb_true_r.
+    specialize (K2 f x (or_introl eq_refl)).
     unfold field_ok in Hf. apply andb_true_iff in Hf as [Hf Harr]. apply andb_true_iff in Hf as [_ Hocc].
     unfold cnt, dmulti in *.
     destruct (keep f x) eqn:Hkeep.
     - destruct (is_none x) eqn:Hx.
       + apply is_none_true in Hx. subst x.
         destruct (match df_max f with Some m => 1 <? m | None => true end) eqn:Hmul.
-        * specialize (K2 f Hmx). unfold dmulti in K2. rewrite Hmul in K2. specialize (K2 eq_refl). congruence.
+        * specialize (K2 eq_refl eq_refl). congruence.
         * destruct (df_ty f), (df_max f) as [m|]; try discriminate;
             repeat (cbv beta iota zeta; match goal with |- context [match ?z with _ => _ end] => is_var z; destruct z end); cbv beta iota zeta delta [ext_ltb]; lia.
       + rewrite (member_conf_some c U poly _ _ Hx) in Hmx. apply andb_true_iff in Hmx as [Ho _].
@@ -284,15 +286,15 @@ Section Dec.
     - destruct Hw as [Hw|Hw]; [discriminate|]. apply orb_true_iff in H as [H|H]; [lia|left; exact H].
   Qed.
 
-  Lemma member_dec n k f x :
+  Lemma member_dec' n k f x :
     (forall m, (m < n)%nat -> Dn m) -> (vdepth x < n)%nat -> (n <= S k)%nat ->
     member_conf c U poly f x = true ->
-    (x = DNone -> dmulti f = false /\ (c_list c = true \/ 0 < df_min f)) ->
+    (x = DNone -> dmulti f = false /\ (df_nillable f = true \/ c_soft c = false)) ->
     mdec_ok (fdr k) f x.
   Proof.
     intros IH Hd Hk Hm Hnone. unfold mdec_ok. destruct (is_none x) eqn:Hx.
-    - apply is_none_true in Hx. subst x. destruct (Hnone eq_refl) as [Hmul Hw]. rewrite Hmul.
-      pose proof (none_allowed f Hm Hmul Hw) as Hal. cbn [senc vnorm].
+    - apply is_none_true in Hx. subst x. destruct (Hnone eq_refl) as [Hmul Hal]. rewrite Hmul.
+      cbn [senc vnorm].
       unfold fdv_with. destruct (df_ty f) as [kd| |].
       + apply Hnull, Hal.
       + change null_member_is_none with true. cbn [bind is_none].
@@ -306,6 +308,17 @@ Section Dec.
         rewrite conf_multi in Hc. pose proof (vdepth_list_in _ _ Hy) as Hyd.
         apply (IH (n - 1)%nat); [lia|lia|lia|]. eapply forallb_In; eauto.
       + apply (IH (n - 1)%nat); [lia|lia|lia|exact Hc].
+  Qed.
+
+  Lemma member_dec n k f x :
+    (forall m, (m < n)%nat -> Dn m) -> (vdepth x < n)%nat -> (n <= S k)%nat ->
+    member_conf c U poly f x = true ->
+    (x = DNone -> dmulti f = false /\ (c_list c = true \/ 0 < df_min f)) ->
+    mdec_ok (fdr k) f x.
+  Proof.
+    intros IH Hd Hk Hm Hnone. apply (member_dec' n k f x IH Hd Hk Hm).
+    intros E. destruct (Hnone E) as [Hmul Hw]. split; [exact Hmul|].
+    subst x. exact (none_allowed f Hm Hmul Hw).
   Qed.
 
   Lemma d_step n : (forall m, (m < n)%nat -> Dn m) -> Dn n.
@@ -347,8 +360,8 @@ Section Dec.
         * cbn [bind fst snd]. rewrite freq_ok_cnts; try assumption.
           -- rewrite andb_false_r, vnorm_obj. cbn [bind is_none]. rewrite andb_false_r. reflexivity.
           -- intros; discriminate.
-          -- intros f Hmc Hmul. cbn [member_conf] in Hmc. unfold none_ok in Hmc.
-             rewrite Hl, Hmul in Hmc. discriminate.
+          -- intros f y Hin -> Hmul. specialize (Hmem f DNone Hin). cbn [member_conf] in Hmem.
+             unfold none_ok in Hmem. rewrite Hl, Hmul in Hmem. discriminate.
         * intros f y Hin _. apply (member_dec n k f y IH (Hdep f y Hin) Hf (Hmem f y Hin)).
           intros ->. split; [|left; exact Hl].
           specialize (Hmem f DNone Hin). cbn [member_conf] in Hmem. unfold none_ok in Hmem.
@@ -366,8 +379,9 @@ Section Dec.
           -- rewrite andb_false_r, vnorm_obj. cbn [bind is_none]. rewrite andb_false_r. reflexivity.
           -- intros f y Hk0. unfold keepd in Hk0. apply negb_false_iff in Hk0.
              apply andb_true_iff in Hk0 as [H1 H2]. apply is_none_true in H1. split; [exact H1|lia].
-          -- intros f Hmc Hmul. cbn [member_conf] in Hmc. unfold none_ok in Hmc.
-             rewrite Hl, Hmul in Hmc. unfold keepd. cbn [is_none]. rewrite Hmc. reflexivity.
+          -- intros f y Hin -> Hmul. specialize (Hmem f DNone Hin). cbn [member_conf] in Hmem.
+             unfold none_ok in Hmem. rewrite Hl, Hmul in Hmem. unfold keepd. cbn [is_none].
+             rewrite Hmem. reflexivity.
         * intros f y Hin Hkeep. apply (member_dec n k f y IH (Hdep f y Hin) Hf (Hmem f y Hin)).
           intros ->. unfold keepd in Hkeep. cbn [is_none andb] in Hkeep.
           apply negb_true_iff in Hkeep.
@@ -391,6 +405,40 @@ Section Dec.
 
   Theorem dec_all n : Dn n.
   Proof. induction n as [n IH] using lt_wf_ind. apply d_step, IH. Qed.
+
+  (** positional parameters (msgpack-rpc): the parameter array of a method, whatever
+      complex_as says about the objects inside *)
+  Theorem d2o_positional d fs ffs fuel :
+    c_iw c = true -> dflat U d = Some ffs -> mconf c U poly ffs fs = true ->
+    (forall f x, In (f, x) (combine ffs fs) -> x = DNone ->
+                 dmulti f = false /\ (df_nillable f = true \/ c_soft c = false)) ->
+    (vdepth (DObj d fs) <= fuel)%nat ->
+    rdr fuel (DRef d) (JList (mlist c U st ffs fs)) = Ok (DObj d (map vnorm fs)).
+  Proof.
+    intros Hiw Hdf Hm Hnone Hf.
+    pose proof (wf_cls _ _ _ Hwf Hdf) as Hw. unfold cls_wf in Hw. rewrite Hdf in Hw.
+    destruct (dname U d) as [cname|] eqn:Hn; [|discriminate].
+    apply andb_true_iff in Hw as [Hw Hcn]. apply andb_true_iff in Hw as [Hnd Hfo].
+    destruct fuel as [|k]; [cbn [vdepth] in Hf; lia|].
+    rewrite d2o_ref by reflexivity. unfold unwrap. rewrite Hiw. cbn [bind]. rewrite Hdf.
+    cbn [iter_doc bind]. rewrite mlist_gitems.
+    pose proof (mconf_length _ _ _ _ _ Hm) as Hlen.
+    pose proof (fold_gitems (fdr k) ffs JStr (fun _ _ => true) (nodup_text_NoDup _ Hnd)) as HF.
+    specialize (HF (fun f _ => ltac:(unfold norm_key; destruct (key_bytes c); reflexivity))).
+    specialize (HF ffs fs [] [] [] eq_refl eq_refl eq_refl Hlen).
+    cbn [app] in HF. rewrite HF.
+    - cbn [bind fst snd]. rewrite freq_ok_cnts; try assumption.
+      + rewrite andb_false_r. reflexivity.
+      + intros; discriminate.
+      + intros f y Hin -> Hmul. destruct (Hnone f DNone Hin eq_refl) as [E _]. congruence.
+    - intros f y Hin _.
+      apply (member_dec' (vdepth (DObj d fs)) k f y (fun m _ => dec_all m)).
+      + apply in_combine_r in Hin. apply (vdepth_obj_in _ d _ Hin).
+      + exact Hf.
+      + eapply mconf_in; eauto.
+      + apply (Hnone f y Hin).
+    - intros; discriminate.
+  Qed.
 
   (** a member document is read back as the member value (None where allowed) *)
   Theorem fdv_member f x fuel :
